@@ -86,6 +86,33 @@ theorem readUntilSemiColon_rest (pinned : Bool) (cs : List Chunk) (ln : List UIn
     (h : readUntilSemiColon pinned cs ln = .ok l) (he : l.err = false) : l.rest.length < cs.length :=
   readUntilSemiColonRev_rest pinned cs _ l h he
 
+/-- `fileutils.Readln(r)`: one line, assembled from the chunks of `ReadLine` while `isPrefix`;
+    returns the line, whether `ReadLine` reported its error, and the chunks still to come -/
+def readln : List Chunk → List UInt8 × Bool × List Chunk
+  | [] => ([], true, [])
+  | c :: rest =>
+    if c.isPrefix then
+      let r := readln rest
+      (c.line ++ r.1, r.2.1, r.2.2)
+    else (c.line, false, rest)
+
+theorem readln_rest_lt : ∀ (cs : List Chunk), (readln cs).2.1 = false → (readln cs).2.2.length < cs.length
+  | [], h => by simp [readln] at h
+  | c :: rest, h => by
+    unfold readln at h ⊢
+    split
+    · rename_i hp
+      simp only [hp, if_true] at h
+      have := readln_rest_lt rest h
+      simp only [List.length_cons]; omega
+    · simp
+
+/-- every line `Readln` returns until the error, as the callers loop (`for err == nil`) -/
+def readLines (cs : List Chunk) : List (List UInt8) :=
+  if h : (readln cs).2.1 = false then (readln cs).1 :: readLines (readln cs).2.2 else []
+termination_by cs.length
+decreasing_by exact readln_rest_lt cs h
+
 /- ## records -/
 
 structure Rec where
@@ -208,6 +235,11 @@ def newickOne (b : List UInt8) : ROut :=
   | .panic m => .panic m
   | .err m => .err m
   | .ok p => .ok [⟨0, some (p.tree, p.nonfinite)⟩]
+
+/-- `cmd/root.go` PersistentPreRun: the `--format` option names a reader by one of four exact words;
+    anything else (or no option at all) means Newick -/
+def formatOfFlag (v : String) : String :=
+  if v == "newick" || v == "nexus" || v == "phyloxml" || v == "nextstrain" then v else "newick"
 
 /- ## clades (the decoded PhyloXML / Nextstrain structures) -/
 
